@@ -1035,6 +1035,8 @@ pub struct ObjFiber {
     pub(crate) exc_handlers: Vec<ExcHandler>,
     pub(crate) return_ip: Option<*const u8>,
     pub(crate) return_handler_count: usize,
+    // Number of call frames when `return_ip`/`return_value` were parked: the frame the parked return belongs to.
+    pub(crate) return_frame_count: usize,
     pub(crate) error_ip: Option<*const u8>,
     pub(crate) handling_exception: bool,
 }
@@ -1061,6 +1063,7 @@ impl ObjFiber {
             exc_handlers: Vec::new(),
             return_ip: None,
             return_handler_count: 0,
+            return_frame_count: 0,
             error_ip: None,
             handling_exception: false,
         }
